@@ -3,7 +3,7 @@
 tier="${1:-quick}"
 cd "$(dirname "$0")/.."
 rc=0
-for p in X01 X02 X03 X04 X05 X06 X07 X10 X11; do
+for p in X01 X02 X03 X04 X05 X06 X07 X08 X10 X11; do
   out=$(./check $p --tier $tier 2>&1); r=$?
   echo "$p rc=$r :: $(echo "$out" | grep -E "VIOLATION|MACHINERY|: ok;|violating" | head -2 | tr '\n' ' ' | cut -c1-200)"
   [ $r -ne 0 ] && rc=$r
